@@ -3,6 +3,7 @@
 from __future__ import annotations
 
 import json
+import re
 
 import common
 from common import Run, run_driver
@@ -36,7 +37,7 @@ VALID = [
     "child::a", "descendant::a", "descendant-or-self::node()", "following::a", "following-sibling::a",
     "parent::*", "preceding::a", "preceding-sibling::a", "self::a", "a|b", "a | b/c | //d",
     "/a/b[@c='d'][1]/e", "a[@b='x' and position()=1 or @c]", "a[text()='x']", "a/text()", "//a[@href and not(starts-with(@href, 'https://'))]",
-    "a['x'=@b]", "a[1=position()]", "a[@b='it''s']", "a[@b='\\'']", "🔥", "é-a.b", "a[last() - 1]",
+    "a['x'=@b]", "a[1=position()]", "//p:a", "//p:*", "//a[@p:b='z']", "//*[@p:b]", "p:a[@p:b]", "//q:a", "//a[@q:b]", "a[@b='it''s']", "a[@b='\\'']", "🔥", "é-a.b", "a[last() - 1]",
 ]
 
 NAMES = ["a", "foo", "p", "text", "node", "comment", "processing-instruction", "position", "last", "not",
@@ -229,6 +230,15 @@ def check_determinism(run: Run, cases):
     from _delb.xpath.tokenizer import tokenize
 
     doc = Document("<r a='1'><a b='x'>t<b/></a><a/><!--c--><?t d?></r>")
+    nsdoc = Document('<r xmlns:p="urn:p" a="1" p:b="y"><a b="x" p:b="z">t<b/></a><p:a b="1" p:b="1"/><a/><!--c--><?t d?></r>')
+    contexts = [None, {"p": "urn:p"}, {"p": "urn:other"}, {"q": "urn:p"}, {"p": "urn:p", "q": "urn:q"}]
+
+    def outcome(expr, ctx):
+        try:
+            return [id(x) for x in nsdoc.root.xpath(expr, namespaces=ctx)]
+        except Exception as e:  # noqa: BLE001
+            return type(e).__name__
+
     rng = run.rng
     sample = [c for c in cases if len(c) < 80]
     rng.shuffle(sample)
@@ -238,7 +248,7 @@ def check_determinism(run: Run, cases):
     tokenize.cache_clear()
     for s in sample:
         ref[s] = comparable(impl_parse(s)[0])
-    n = 0
+    n = n_ctx = 0
     for rnd in range(3):
         order = sample[:]
         rng.shuffle(order)
@@ -249,7 +259,7 @@ def check_determinism(run: Run, cases):
             n += 1
             if got != ref[s]:
                 run.violation("determinism", s, {"first": ref[s], "later": got})
-            if "ok" in got and rng.random() < 0.3:
+            if "ok" in got and (rng.random() < 0.3 or (rnd == 0 and ":" in s)):
                 try:
                     cached = parse(s)
                     before = repr(cached)
@@ -264,7 +274,23 @@ def check_determinism(run: Run, cases):
                         run.violation("determinism", s, "an expression object that was evaluated differs from a fresh parse of the same string")
                 except Exception:  # noqa: BLE001  evaluation errors are not C16's business
                     pass
+                # evaluations in other namespace contexts before: the cached object must behave like a fresh one
+                prefixed = re.search(r"[^:\s]:[^:\s]", s) is not None
+                pairs = [(a, b) for a in contexts for b in contexts] if prefixed and rnd == 0 else [(rng.choice(contexts), rng.choice(contexts))]
+                n_ctx += len(pairs)
+                for c1, c2 in pairs:
+                  parse.cache_clear()
+                  first = outcome(s, c1)
+                  cached_second = outcome(s, c2)
+                  parse.cache_clear()
+                  fresh_second = outcome(s, c2)
+                  if cached_second != fresh_second:
+                    run.violation("determinism", s, {"why": "an expression that was evaluated in another namespace context before evaluates differently from a fresh parse",
+                                                     "contexts": [c1, c2], "first": first if isinstance(first, str) else len(first),
+                                                     "cached": cached_second if isinstance(cached_second, str) else len(cached_second),
+                                                     "fresh": fresh_second if isinstance(fresh_second, str) else len(fresh_second)})
     run.count("determinism", n)
+    run.count("determinism-context-pairs", n_ctx)
 
 
 def is_known(s: str) -> str | None:
